@@ -644,6 +644,7 @@ func (ls *LanceroSource) launchLanceroReader() {
 	go func() {
 		ticker := time.NewTicker(ls.readPeriod)
 		lastSuccesfulRead := time.Now()
+		discardedUnusableRead := false // a whole read was thrown away since the last buffer was sent on
 		for {
 			select {
 			case <-ls.abortSelf:
@@ -677,9 +678,15 @@ func (ls *LanceroSource) launchLanceroReader() {
 					fmt.Printf("ncols have %v, want %v. nrows have %v, want %v, timeSinceLastSuccesfulRead %v\n",
 						ncols, dev.ncols, nrows, dev.nrows, timeSinceLastSuccesfulRead)
 					dev.card.ReleaseBytes(len(b))
+					discardedUnusableRead = true
 					continue
 				}
 				firstWord := q
+				if discardedUnusableRead {
+					// The data thrown away above are a loss, too, even when the stream happens to resume frame-aligned.
+					dataDropDetected = true
+					discardedUnusableRead = false
+				}
 				// check for dataDrop
 				if firstWord != dev.ncols*dev.nrows {
 					// if data drop detected
